@@ -60,6 +60,10 @@ func Exists(lo, hi int, f func(i int) bool) bool {
 // It has no executable meaning.
 func Fresh[T any](x T) bool { return true }
 
+// PreExisting states that x (a pointer, slice or interface) refers to an object that existed
+// before the function under verification was entered (e.g. a package-level singleton).
+func PreExisting[T any](x T) bool { return true }
+
 // SameSlice states that a and b are the same slice header (array, offset, length).
 func SameSlice[T any](a, b []T) bool {
 	if len(a) != len(b) {
@@ -112,6 +116,17 @@ func AssignsWhen(cond bool)     {}
 // it to the integers; executed concretely it is a machine int (specifications that need more
 // than 63 bits are proof-only).
 type Mathint int
+
+// BE is the big-endian value of the bytes of s (executable for up to 7 bytes; proof-only beyond).
+//
+// @ spec opaque
+func BE(s string) Mathint {
+	var v Mathint
+	for i := 0; i < len(s); i++ {
+		v = v*256 + Mathint(s[i])
+	}
+	return v
+}
 
 // Arr32, Arr48 and Arr64 view a byte array value as a string.
 func Arr32(a [32]byte) string { return string(a[:]) }
